@@ -25,31 +25,66 @@ def harness(tier, seed):
     out = os.path.join(d, 'out')
     fjson = os.path.join(out, 'xpand_harness.lib.json')
     if os.environ.get('VERIF_NOCACHE') == '1' or not (os.path.exists(fjson) and os.path.exists(os.path.join(out, 'nonce'))):
-        import shutil
-        shutil.rmtree(d, ignore_errors=True)
-        os.makedirs(d)
-        repo = os.environ.get('VERIF_REPO', '/repo')
-        r = subprocess.run([sys.executable, os.path.join(VERIF, 'engines', 'xpand', 'gen.py'), d, repo, tier, str(seed)], capture_output=True, text=True)
-        if r.returncode != 0:
-            raise factsmod.FactsError('harness generation failed: %s' % r.stderr[-2000:])
-        nonce = '%d-%d' % (time.time_ns(), os.getpid())
-        r = subprocess.run([os.path.join(VERIF, 'lib', 'extract_harness.sh'), d, out], env=dict(os.environ, VERIF_NONCE=nonce), capture_output=True, text=True)
-        if r.returncode != 0:
-            raise HarnessRejected(r.stderr[-6000:])
-        _gc()
+        _build_locked(d, tier, seed)
+    try:
+        os.utime(d, None)
+    except OSError:
+        pass
     F = factsmod.Facts(fjson)
     sc = json.load(open(os.path.join(d, 'sidecar.json')))
     _cache[key] = (F, sc, d)
     return _cache[key]
 
 
+def _build_locked(d, tier, seed):
+    """one builder at a time (the harness target directory and the cache entry are shared between concurrently running
+    checks); the entry is generated in a private directory and renamed into place once complete"""
+    import fcntl
+    import shutil
+    base = os.path.join(VERIF, '.cache', 'xpand')
+    os.makedirs(base, exist_ok=True)
+    with open(os.path.join(base, 'lock'), 'w') as lf:
+        fcntl.flock(lf, fcntl.LOCK_EX)
+        try:
+            out = os.path.join(d, 'out')
+            if os.environ.get('VERIF_NOCACHE') != '1' and os.path.exists(os.path.join(out, 'xpand_harness.lib.json')) and os.path.exists(os.path.join(out, 'nonce')):
+                return
+            shutil.rmtree(d, ignore_errors=True)
+            os.makedirs(d)
+            repo = os.environ.get('VERIF_REPO', '/repo')
+            r = subprocess.run([sys.executable, os.path.join(VERIF, 'engines', 'xpand', 'gen.py'), d, repo, tier, str(seed)], capture_output=True, text=True)
+            if r.returncode != 0:
+                raise factsmod.FactsError('harness generation failed: %s' % r.stderr[-2000:])
+            nonce = '%d-%d' % (time.time_ns(), os.getpid())
+            r = subprocess.run([os.path.join(VERIF, 'lib', 'extract_harness.sh'), d, out], env=dict(os.environ, VERIF_NONCE=nonce), capture_output=True, text=True)
+            if r.returncode != 0:
+                shutil.rmtree(out, ignore_errors=True)
+                raise HarnessRejected(r.stderr[-6000:])
+            _gc(keep=os.path.basename(d))
+        finally:
+            fcntl.flock(lf, fcntl.LOCK_UN)
+
+
 class HarnessRejected(Exception):
     """the compiler rejected a grammar point of the harness on this tree"""
 
 
-def _gc():
-    base = os.path.join(VERIF, '.cache', 'xpand')
-    ents = sorted((e for e in os.listdir(base)), key=lambda e: os.path.getmtime(os.path.join(base, e)))
+def _gc(keep=None):
+    """called with the lock held: drop cache entries not used for an hour (beyond the 6 newest), and the shared harness target
+    directory once it has grown past 4 GB (every scratch tree adds a build of unimock to it)"""
     import shutil
+    base = os.path.join(VERIF, '.cache', 'xpand')
+    ents = sorted((e for e in os.listdir(base) if os.path.isdir(os.path.join(base, e))), key=lambda e: os.path.getmtime(os.path.join(base, e)))
+    now = time.time()
     while len(ents) > 6:
-        shutil.rmtree(os.path.join(base, ents.pop(0)), ignore_errors=True)
+        e = ents.pop(0)
+        if e == keep or now - os.path.getmtime(os.path.join(base, e)) < 3600:
+            continue
+        shutil.rmtree(os.path.join(base, e), ignore_errors=True)
+    td = os.path.join(VERIF, '.cache', 'target', 'xpand')
+    try:
+        r = subprocess.run(['du', '-sm', td], capture_output=True, text=True)
+        if r.returncode == 0 and int(r.stdout.split()[0]) > 4096:
+            shutil.rmtree(td, ignore_errors=True)
+    except (OSError, ValueError, IndexError):
+        pass
